@@ -5,11 +5,15 @@
 //! Nothing in this crate imports a crate from /repo. `clvmr` is used only to
 //! materialise model trees in an `Allocator` (trusted, see DESIGN.md §5).
 
+pub mod bundlegen;
 pub mod cli;
+pub mod conditions;
 pub mod ints;
+pub mod merkle_set;
 pub mod report;
 pub mod rng;
 pub mod sx;
+pub mod timelocks;
 
 pub use cli::Args;
 pub use report::Report;
